@@ -116,7 +116,7 @@ func main() {
 		fmt.Fprintln(os.Stderr, "load:", err)
 		os.Exit(1)
 	}
-	var hookAims, sessionRule, mapRanges, envUses, volatileSets, fatalSites, signerRows rows
+	var hookAims, sessionRule, mapRanges, envUses, volatileSets, fatalSites, signerRows, checkRuns rows
 	nerr := 0
 	for _, pkg := range pkgs {
 		for _, e := range pkg.Errors {
@@ -341,6 +341,19 @@ func main() {
 					}
 					return true
 				})
+				// ---- what ProcessCheck runs
+				if fd.Name.Name == "ProcessCheck" && fd.Recv != nil && (strings.HasPrefix(short, "action/") || strings.HasPrefix(short, "external_apps/")) {
+					var callees []string
+					ast.Inspect(fd.Body, func(n ast.Node) bool {
+						if ce, ok := n.(*ast.CallExpr); ok {
+							if id, ok := ce.Fun.(*ast.Ident); ok && strings.HasPrefix(id.Name, "run") {
+								callees = append(callees, id.Name)
+							}
+						}
+						return true
+					})
+					checkRuns = append(checkRuns, []string{qfn, strings.Join(callees, ",")})
+				}
 				// ---- Signers()
 				if fd.Name.Name == "Signers" && fd.Recv != nil && strings.HasPrefix(short, "action/") || (fd.Name.Name == "Signers" && fd.Recv != nil && strings.HasPrefix(short, "external_apps/")) {
 					var fields []string
@@ -374,6 +387,7 @@ func main() {
 	sortRows(volatileSets)
 	sortRows(fatalSites)
 	sortRows(signerRows)
+	sortRows(checkRuns)
 	sortRows(sessionRule)
 	// hookAims keep source order per function; sort functions by name (stable)
 	sort.SliceStable(hookAims, func(i, j int) bool { return hookAims[i][0] < hookAims[j][0] })
@@ -397,6 +411,7 @@ func main() {
 	sb.WriteString(volatileSets.lean("volatileSets", "Use", use))
 	sb.WriteString(fatalSites.lean("fatalSites", "Use", use))
 	sb.WriteString(signerRows.lean("signerRows", "Use", use))
+	sb.WriteString(checkRuns.lean("checkRuns", "Use", use))
 	// option-copy setters of InitChain vs start-up, normalised to "<store>.<setter>"
 	norm := func(fn string) rows {
 		var r rows
